@@ -194,7 +194,23 @@ pub fn run(args: &Args, mon: &mut Mon) -> (String, Vec<&'static str>) {
                 } else {
                     let segs = registry.endhost_list_segments(ia(&t, s), ia(&t, s), ia(&t, d))?;
                     let ps = segs.into_path_segments(&topo, chrono::Utc.timestamp_opt(ts as i64, 0).unwrap(), seg_id, exp)?;
-                    Ok(real_combine(ia(&t, s), ia(&t, d), ps.iter_cores().cloned().collect(), ps.iter_non_cores().cloned().collect()))
+                    let mut cores: Vec<_> = ps.iter_cores().cloned().collect();
+                    let mut non_cores: Vec<_> = ps.iter_non_cores().cloned().collect();
+                    if i % 3 == 2 {
+                        // the same routes beaconed a second time (other timestamp, SegID, expiry):
+                        // both generations are on offer, older first or newer first
+                        let segs2 = registry.endhost_list_segments(ia(&t, s), ia(&t, s), ia(&t, d))?;
+                        let ts2 = ts - 1 - (seg_id as u32 % 500);
+                        let ps2 = segs2.into_path_segments(&topo, chrono::Utc.timestamp_opt(ts2 as i64, 0).unwrap(), seg_id.wrapping_mul(31).wrapping_add(7), if exp == 255 { 200 } else { 255 })?;
+                        if seg_id % 2 == 0 {
+                            cores.extend(ps2.iter_cores().cloned());
+                            non_cores.extend(ps2.iter_non_cores().cloned());
+                        } else {
+                            cores = ps2.iter_cores().cloned().chain(cores).collect();
+                            non_cores = ps2.iter_non_cores().cloned().chain(non_cores).collect();
+                        }
+                    }
+                    Ok(real_combine(ia(&t, s), ia(&t, d), cores, non_cores))
                 }
             });
             m.eval();
@@ -238,7 +254,7 @@ pub fn run(args: &Args, mon: &mut Mon) -> (String, Vec<&'static str>) {
     // router over an RTopo rebuilt from it is covered indirectly: the generated families contain
     // its structure (multi-ISD, peering, parallel links); see DESIGN.md.
     (
-        format!("{n_topo} generated topologies (40% tiny, 50% small, 10% medium; parallel links, multi-parent DAGs, peering, 1-3 ISDs, interface ids incl. 1 and 65535, random per-AS keys) built as pocketscion topologies; for every ordered AS pair the paths offered by pocketscion's registry + sciparse combine (constants as in paths() on every third topology, varied timestamp/SegID/ExpTime otherwise) are walked hop by hop by the reference router, reversed with the real try_reverse and walked back; completeness against reference beaconing + combination. distinct = distinct (path class, hop count) observed."),
+        format!("{n_topo} generated topologies (40% tiny, 50% small, 10% medium; parallel links, multi-parent DAGs, peering, 1-3 ISDs, interface ids incl. 1 and 65535, random per-AS keys) built as pocketscion topologies; for every ordered AS pair the paths offered by pocketscion's registry + sciparse combine (constants as in paths() on every third topology, varied timestamp/SegID/ExpTime otherwise, and on every third topology each route beaconed twice with different timestamp/SegID/ExpTime, both generations on offer) are walked hop by hop by the reference router, reversed with the real try_reverse and walked back; completeness against reference beaconing + combination. distinct = distinct (path class, hop count) observed."),
         vec![
             "reference border router, beaconing and combination rules in harness/refscion (written from the SCION specifications); forwarding is judged by this reference, not by a production router",
             "pocketscion assigns MTU 1280 everywhere; MTU truthfulness is C04's subject",
